@@ -428,4 +428,4 @@ def flat_ints(a):
 
 
 from arrays_optable import *  # noqa: E402,F401,F403  (registers the operations)
-from arrays_optable import numpy_model_lines  # noqa: E402,F401
+from arrays_optable import numpy_model_lines, VARIANTS  # noqa: E402,F401
